@@ -549,6 +549,10 @@ func (r *RIB) addEntryInternal(ni string, op *spb.AFTOperation, oks, fails *[]*O
 
 	switch {
 	case opErr != nil:
+		// The operation can never be installed. If it was being held as a
+		// pending entry it must stop being retried, otherwise it is reported
+		// as failed again after every subsequent install.
+		r.rmPending(op.GetId())
 		*fails = append(*fails, &OpResult{
 			ID:    op.GetId(),
 			Op:    op,
